@@ -6,6 +6,7 @@ import (
 	"fmt"
 	"os"
 	"path/filepath"
+	"runtime"
 	"sort"
 	"strings"
 	"sync"
@@ -96,7 +97,18 @@ func main() {
 	}
 	s := NewSuite()
 	rng := NewRng(*seed)
-	f(s, rng, *tier)
+	func() {
+		// an honest operation the suite relies on failed hard: that is a finding about the implementation
+		// (or the harness); keep what was gathered and report it with the panic as the replay
+		defer func() {
+			if r := recover(); r != nil {
+				buf := make([]byte, 4096)
+				buf = buf[:runtime.Stack(buf, false)]
+				s.Violate(name+":operation-panicked", fmt.Sprintf("the suite's run of the implementation panicked: %v", r), L{fmt.Sprint(r), string(buf)})
+			}
+		}()
+		f(s, rng, *tier)
+	}()
 	if err := s.write(*out); err != nil {
 		fmt.Fprintln(os.Stderr, err)
 		os.Exit(2)
